@@ -6,12 +6,16 @@ import IPT.Lemmas.ExtLat
   Seven entries: structural (a result is a record of seven; the correspondence asserts the key
   set of the real map).  Order of the conventionally computed times around Dhuhr: over ℝ.
   The links through Shurooq/Maghrib are at the level of first-approximation hour angles
-  (`…_partial`: the Newton correction and refraction term are not bounded here).
+  (`…_partial`: Shurooq < Dhuhr < Maghrib `riseset_offset_pos_partial`, Fajr ≤ Shurooq and Maghrib ≤
+  Isha `twilight_outside_riseset_partial`, Asr < Maghrib `C04.asr_before_maghrib_first_approx_partial`;
+  the Newton correction and refraction term are not bounded here).
 -/
 namespace IPT.C05
 open IPT IPT.TrigLemmas IPT.ExtLatLemmas Real
 
-/-- every result has exactly the seven entries, in `Prayer` order -/
+/-- structural remark only: a result is a record of seven entries in `Prayer` order (that the seven
+    entries of `prayerTimesDt` are the conversions of the six hours and of Imsaak is
+    `C07.prayerTimesDt_entries`; the key set of the real map is asserted by the correspondence) -/
 theorem seven_entries (d : DayTimes) :
     [d.imsaak, d.fajr, d.shur, d.dhuhr, d.asr, d.magh, d.isha].length = 7 := rfl
 
@@ -93,7 +97,8 @@ theorem dhuhr_lt_asr (ratio : AsrRatio) (lat dec dhuhr asr : ℝ)
     (h : getAsr ratio lat dec dhuhr = some asr) : dhuhr < asr :=
   C04.asr_after_dhuhr ratio lat dec dhuhr asr hk hu h
 
-/-- every conventional time lies within 180° of hour angle, i.e. 12 h, of Dhuhr -/
+/-- Fajr lies within 180° of hour angle, i.e. 12 h, before Dhuhr (Isha and Asr after it:
+    `C07.twilight_bounds`, `C07.asr_bounds`) -/
 theorem within_12h (angF angI lat dec dhuhr f : ℝ) (hf : (fajrIsha angF angI lat dec dhuhr).1 = some f) :
     dhuhr - f ≤ 180 * Gen.DEGREES_TO_10_BASE := by
   have hc := hpd_pos
@@ -109,7 +114,8 @@ theorem within_12h (angF angI lat dec dhuhr f : ℝ) (hf : (fajrIsha angF angI l
     rw [mul_div_assoc', div_le_iff₀ hp]; nlinarith
   nlinarith
 
-/-- with an interval, Isha = Maghrib + interval is after Maghrib and Fajr = Shurooq − interval before Shurooq -/
+/-- arithmetic remark: with a positive interval, Maghrib + interval is after Maghrib and Shurooq −
+    interval before Shurooq (that an interval-defined Isha/Fajr IS that expression: `C12.isha_fajr_interval`) -/
 theorem interval_order (m s int : ℝ) (h : 0 < int) :
     m < m + int / Gen.MIN_SEC_PER_HR_MIN ∧ s - int / Gen.MIN_SEC_PER_HR_MIN < s := by
   rw [c_MIN_SEC]; constructor <;> linarith [div_pos h (show (0 : ℝ) < 60 by norm_num)]
@@ -153,6 +159,64 @@ theorem riseset_offset_pos_partial (lat dec adj : ℝ) (h : shurMaghM0Adj lat de
   constructor
   · positivity
   · rw [div_lt_iff₀ (by norm_num)]; linarith
+
+/-- the rise/set hour angle in degrees is 360 times the day-fraction offset: 360·adj = arccos(r₀)° whenever −1 < r₀ < 1 -/
+theorem riseset_hourangle (lat dec adj : ℝ) (h : shurMaghM0Adj lat dec = some adj)
+    (hr : (Real.sin (toRadians (Gen.CENTER_OF_SUN_ANGLE : ℝ)) - Real.sin (toRadians lat) * Real.sin (toRadians dec)) /
+      (Real.cos (toRadians lat) * Real.cos (toRadians dec)) < 1)
+    (hr' : -1 < (Real.sin (toRadians (Gen.CENTER_OF_SUN_ANGLE : ℝ)) - Real.sin (toRadians lat) * Real.sin (toRadians dec)) /
+      (Real.cos (toRadians lat) * Real.cos (toRadians dec))) :
+    360 * adj = toDegrees (Real.arccos ((Real.sin (toRadians (Gen.CENTER_OF_SUN_ANGLE : ℝ)) - Real.sin (toRadians lat) * Real.sin (toRadians dec)) /
+      (Real.cos (toRadians lat) * Real.cos (toRadians dec)))) := by
+  unfold shurMaghM0Adj at h
+  simp only [sc_sin, sc_cos, sc_acos] at h
+  split at h <;> [skip; simp at h]
+  simp only [Option.some.injEq] at h
+  set r := (Real.sin (toRadians (Gen.CENTER_OF_SUN_ANGLE : ℝ)) - Real.sin (toRadians lat) * Real.sin (toRadians dec)) /
+      (Real.cos (toRadians lat) * Real.cos (toRadians dec)) with hrdef
+  have h0 : 0 < toDegrees (Real.arccos r) := toDegrees_pos (Real.arccos_pos.mpr hr)
+  have h180 : toDegrees (Real.arccos r) < 180 := by
+    rw [toDegrees_real]
+    have : Real.arccos r < Real.pi := by
+      rw [← Real.arccos_neg_one]
+      exact Real.strictAntiOn_arccos ⟨le_refl _, by norm_num⟩ ⟨hr'.le, hr.le⟩ hr'
+    have hp := Real.pi_pos
+    rw [mul_div_assoc', div_lt_iff₀ hp]; nlinarith
+  -- capAngle180 is the identity on (0, 180)
+  have hcap : capAngle180 (toDegrees (Real.arccos r)) = toDegrees (Real.arccos r) := by
+    set y := toDegrees (Real.arccos r)
+    simp only [capAngle180, capAngle, c_PI_DEG, sc_floor, sc_ltb, lit_zero]
+    have hfl : ⌊y / 180⌋ = 0 := by
+      rw [Int.floor_eq_iff]; constructor
+      · simp; positivity
+      · simp; rw [div_lt_one (by norm_num)]; exact h180
+    simp only [hfl, Int.cast_zero, sub_zero]
+    have : 0 < y / 180 := by positivity
+    simp only [this, decide_true, if_true]
+    field_simp
+  rw [hcap, c_TWO_PI_DEG] at h
+  rw [← h]; field_simp
+
+/-- **Fajr is at least as far before the transit as the first approximation of Shurooq, Isha as far
+    after it as that of Maghrib** (`…_partial`: first approximations; the one-step correction of
+    rise/set is not bounded here): for a depression angle a ≥ 0.83337° the twilight hour angle is at
+    least the rise/set hour angle -/
+theorem twilight_outside_riseset_partial (lat dec a adj : ℝ)
+    (hk : 0 < Real.cos (toRadians lat) * Real.cos (toRadians dec))
+    (ha : 83337 / 100000 ≤ a) (ha' : a ≤ 90)
+    (h : shurMaghM0Adj lat dec = some adj)
+    (hr : (Real.sin (toRadians (Gen.CENTER_OF_SUN_ANGLE : ℝ)) - Real.sin (toRadians lat) * Real.sin (toRadians dec)) /
+      (Real.cos (toRadians lat) * Real.cos (toRadians dec)) < 1)
+    (hr' : -1 < (Real.sin (toRadians (Gen.CENTER_OF_SUN_ANGLE : ℝ)) - Real.sin (toRadians lat) * Real.sin (toRadians dec)) /
+      (Real.cos (toRadians lat) * Real.cos (toRadians dec))) :
+    360 * adj ≤ toDegrees (Real.arccos (twilightCos lat dec a)) := by
+  rw [riseset_hourangle lat dec adj h hr hr']
+  have e0 : (Real.sin (toRadians (Gen.CENTER_OF_SUN_ANGLE : ℝ)) - Real.sin (toRadians lat) * Real.sin (toRadians dec)) /
+      (Real.cos (toRadians lat) * Real.cos (toRadians dec)) = twilightCos lat dec (83337 / 100000) := by
+    rw [C03.twilightCos_real, c_CENTER_OF_SUN_ANGLE]
+  rw [e0]
+  have m := C03.twilightCos_antitone lat dec (83337 / 100000) a hk (by norm_num) ha ha'
+  exact toDegrees_le (Real.arccos_le_arccos m)
 
 variable {α : Type} [Add α] [Sub α] [Mul α] [Div α] [Neg α] [OfScientific α] [Sc α]
 
